@@ -483,9 +483,14 @@ def specApplied (x out : Img Rat) (mask : Nat → Nat → Bool) (b0 b1 : Nat) (p
 def isPermOfSorted (nidx idx : List Nat) : Bool :=
   nidx.mergeSort (fun a b => decide (a ≤ b)) == idx
 
-/-- `np.std(x) ** 2` with the mean taken once (`var` as written evaluates it per pixel) -/
-def varFast (x : List Rat) : Rat :=
-  let m := mean x
-  mean (x.map (fun v => (v - m) * (v - m)))
+/-- `np.std(x) ** 2` as `mean(x²) - mean(x)²` (two sums; `var` as written subtracts the mean pixel by pixel, which
+for a few hundred thousand pixels means as many rational normalisations) -/
+def varFast (x : List Rat) : Rat := cov x x
+
+/-- the mean of integer pixel values (one integer sum) -/
+def meanI (l : List Int) : Rat := ((l.sum : Int) : Rat) / (l.length : Rat)
+
+/-- `cov` for integer-valued images: integer sums of the values and of their products -/
+def covI (x y : List Int) : Rat := meanI (List.zipWith (· * ·) x y) - meanI x * meanI y
 
 end Pew.Colocal
